@@ -1080,6 +1080,7 @@ where
             // Refresh pool information, something might have changed.
             pool = self.get_pool().await?;
             query_router.update_pool_settings(&pool.settings);
+            self.transaction_mode = pool.settings.pool_mode == PoolMode::Transaction;
 
             debug!("Waiting for connection from pool");
             if !self.admin {
